@@ -59,6 +59,7 @@ class BrokerState:
 
     @staticmethod
     def from_workflow(workflow: Workflow) -> BrokerState:
+        catch_error_handlers, handler_for_step = workflow._catch_error_tables()
         return BrokerState(
             is_running=False,
             config=BrokerConfig(
@@ -71,8 +72,8 @@ class BrokerState:
                     for name, step_func in workflow._get_steps().items()
                 },
                 timeout=workflow._timeout,
-                catch_error_handlers=dict(workflow._catch_error_handlers),
-                handler_for_step=dict(workflow._handler_for_step),
+                catch_error_handlers=dict(catch_error_handlers),
+                handler_for_step=dict(handler_for_step),
             ),
             workers={
                 name: InternalStepWorkerState(
